@@ -5,7 +5,9 @@ confirmed ones as /verif/seeded/<PROP>-<n>/{patch.diff, demo.py, meta.json}.  Th
 import json, os, re, shutil, subprocess, sys
 V = os.path.dirname(os.path.dirname(os.path.abspath(__file__)))
 prop = sys.argv[1]
-src = '/tmp/mut_%s_out' % prop
+rnd = int(sys.argv[2]) if len(sys.argv) > 2 else 1          # campaign round: 1 -> /tmp/mut_<P>_out, seeded/<P>-1,2 ; 2 -> /tmp/mut2_<P>_out, seeded/<P>-3,4
+src = '/tmp/mut%s_%s_out' % ('' if rnd == 1 else str(rnd), prop)
+off = 2 * (rnd - 1)
 SUITE = ['/venv/bin/python', '-m', 'pytest', '-ra', '-q', '-p', 'no:cacheprovider', '--timeout=900', '--continue-on-collection-errors']
 
 
@@ -18,7 +20,7 @@ for n in (1, 2, 3):
     pf = os.path.join(src, 'patch%d.diff' % n)
     if not os.path.exists(pf):
         continue
-    wt = '/tmp/confirm_%s_%d' % (prop, n)
+    wt = '/tmp/confirm_%s_%d_%d' % (prop, rnd, n)
     sh(['git', '-C', '/repo', 'worktree', 'remove', '--force', wt])
     rc, out = sh(['git', '-C', '/repo', 'worktree', 'add', '--detach', wt, 'HEAD'])
     conf = {}
@@ -42,11 +44,12 @@ for n in (1, 2, 3):
         shutil.rmtree(wt, ignore_errors=True)
     print(prop, n, json.dumps(conf)[:600])
     if conf.get('confirmed'):
-        d = os.path.join(V, 'seeded', '%s-%d' % (prop, n))
+        d = os.path.join(V, 'seeded', '%s-%d' % (prop, n + off))
         os.makedirs(d, exist_ok=True)
         shutil.copy(pf, os.path.join(d, 'patch.diff'))
         shutil.copy(demo, os.path.join(d, 'demo.py'))
         meta = json.load(open(os.path.join(src, 'meta%d.json' % n)))
         meta['confirmation'] = conf
+        meta['round'] = rnd
         meta['repo_head_at_confirmation'] = subprocess.run(['git', '-C', '/repo', 'rev-parse', '--short', 'HEAD'], capture_output=True, text=True).stdout.strip()
         json.dump(meta, open(os.path.join(d, 'meta.json'), 'w'), indent=1)
